@@ -2,7 +2,7 @@
    Statements only; proofs in Gen/ConfigThm.v, ConfigThm2.v, ConfigThmAlias.v.  The leaf rule
    (DefaultValue.assign_to_if_not_default), the body of deep_update, cpp _validate_language_options,
    the cpp option groups and the CLI wiring are regenerated from /repo into Generated/Gen_C13.v. *)
-From Verif Require Import Config ConfigAlias ConfigThm ConfigThm2 ConfigThm3 ConfigThm4 ConfigThmProc ConfigThmAlias.
+From Verif Require Import Config ConfigAlias ConfigThm ConfigThm2 ConfigThm3 ConfigThm4 ConfigThm5 ConfigThmProc ConfigThmAlias.
 Require Import List Bool.
 Import ListNotations.
 Open Scope N_scope.
@@ -108,6 +108,19 @@ Theorem c13_cli_defaults_never_displace : forall arg files builtin s l k v s',
 Proof. exact cli_defaults_never_displace. Qed.
 Print Assumptions c13_cli_defaults_never_displace.
 
+(* the same over the REGENERATED argparse table: `given` is what is literally on the command line, the parsed Namespace is
+   cli_args given (defaults read from the add_argument calls of cli/__init__.py); a flag that is not given never displaces a
+   file value.  Breaks when a default becomes explicit (default="any", a DefaultValue wrapper removed, ...). *)
+Theorem c13_cli_flag_not_given_never_displaces : forall given files builtin s l k d v s',
+  In (k, d) cli_option_sources -> given d = None ->
+  merge_files (Some builtin) files = Some s ->
+  language_of (cli_ops (cli_args given) files) None = Some l ->
+  bcreate (fold_left bapply (cli_ops (cli_args given) files) (new_builder builtin)) = Some s' ->
+  lookup [section_of l; key_options; k] (Node s) = Some v -> is_default v = false ->
+  lookup [section_of l; key_options; k] (Node s') = Some v.
+Proof. exact cli_flag_not_given_never_displaces. Qed.
+Print Assumptions c13_cli_flag_not_given_never_displaces.
+
 Theorem c13_explicit_override_wins : forall s name over opts k a,
   dnodup over = true -> dnodup opts = true ->
   dget key_options over = Some (Node opts) ->
@@ -176,12 +189,41 @@ Theorem c13_cpp_documented_groups_covered : documented_groups_covered = true.
 Proof. exact documented_groups_covered_ok. Qed.
 Print Assumptions c13_cpp_documented_groups_covered.
 
+(* values, not only keys: every documented (shorthand, key, value) of docs/languages.rst is what the group regenerated from
+   properties.yaml applies, except the recorded documentation defect F-DOC-STDGROUP (c++17-pmr / allocator_include); every
+   shorthand of properties.yaml is documented and vice versa *)
+Theorem c13_cpp_documented_group_values : 
+  forallb known_doc_mismatch doc_value_mismatches = true
+  /\ length cpp_documented_groups = length cpp_std_groups
+  /\ forallb (fun ng => dmem (fst ng) cpp_documented_groups) cpp_std_groups = true.
+Proof. exact documented_group_values_agree. Qed.
+Print Assumptions c13_cpp_documented_group_values.
+
+(* KNOWN AND DELIBERATE boundary of "later/explicit wins" (stated reading of the property: a std shorthand sets its group
+   "as a unit"): the group selected by the merged `std` overrides an explicit value of a group key even when that value
+   comes from a LATER / higher-precedence source than the one that selected the shorthand (earlier file `std: c++17-pmr`,
+   later file `allocator_type: m`: the chain says m, get_option says the group's allocator).  Reproduced on /repo; recorded
+   in DESIGN as the stated reading, not a finding. *)
+Theorem c13_shorthand_group_overrides_even_later_explicit :
+  let merged := du_all (Node sh_builtin) [sh_file1; sh_file2] in
+  lookup [sh_sec; key_options; cpp_key_alloc] sh_file2 = Some (Leaf false (AStr [109]))
+  /\ untouched [sh_sec; key_options; cpp_key_std] sh_file2 = true
+  /\ lookup [sh_sec; key_options; cpp_key_alloc] merged = Some (Leaf false (AStr [109]))
+  /\ exists v, effective_option LkCpp (cv_items merged) sh_sec cpp_key_alloc = Some v /\ v <> Leaf false (AStr [109]).
+Proof. exact shorthand_group_overrides_even_later_explicit. Qed.
+Print Assumptions c13_shorthand_group_overrides_even_later_explicit.
+
 Theorem c13_cpp_builtin_shorthands_apply : forallb (fun ng => shorthand_applies (fst ng)) cpp_std_groups = true.
 Proof. exact builtin_shorthands_apply. Qed.
 Print Assumptions c13_cpp_builtin_shorthands_apply.
 
-(* source documents: with the copy function the code uses NOW (regenerated flag) the merged configuration never
-   reaches a dict object of any source document, so no merge can modify a source *)
+(* source documents.  ABSTRACTION: this is a statement about OWNERSHIP/REACHABILITY, not about heap contents: dict nodes of
+   the sources are tagged, and with the copy function the code uses NOW (regenerated flag) no tagged dict object is reachable
+   from the merged configuration, for all bases and source lists.  That an unreachable dict cannot be modified by later merges
+   is argued (all writes of deep_update go through objects reachable from the target), not proved.  NOT covered: list objects
+   (atoms `AList`): `target[key] = value` stores the source's list by reference; YAML anchors/aliases.  The implementation side
+   is checked on every run by deep-comparing every source document object (yaml-loaded dicts incl. nested lists, API
+   documents, override values) before and after all builder operations and observations (tools/harness/c13_impl.py). *)
 Theorem c13_sources_unmodified : forall base srcs,
   has_src (tmerge_all deep_update_copies_deeply base srcs) = false.
 Proof. intros. apply sources_unmodified_ownership. reflexivity. Qed.
